@@ -188,6 +188,57 @@ def oracle(case, o, conv=lambda x: x, tol=None):
     return out
 
 
+def gen_extreme(rng):
+    """float magnitudes far from 1: every share D * w_i / W is representable (so is D * w_i), but
+    intermediate quantities such as D / W or 1 / W need not be"""
+    n = rng.randint(2, 5)
+    kind = rng.choice(["weighted", "weighted", "uniform"])
+    attr = rng.choice(["supply", "utilisation", "allocation"])
+    # exponent of the weights, exponent of the demand
+    # (D * w_i stays a normal float with room for the mantissas: -300 <= E + e <= 305)
+    e, E = rng.choice([(-10, 300), (-9, 299), (0, 305), (-3, 306), (170, -170), (160, -160), (150, -165), (-300, 0),
+                       (0, 300), (0, -300), (100, 100), (-150, -150), (-200, 250), (140, -300)])
+    if attr != "supply":
+        e = min(e, 0)      # utilisation / allocation are ratios <= 1
+    ws = [rng.choice([0, 1, 1, 2, 3, 5]) * 10.0 ** e * (1 if attr == "supply" else 0.1) for _ in range(n)]
+    if attr != "supply":
+        ws = [min(w, 1.0) for w in ws]
+    D = rng.choice([1, 2, 3, 7]) * 10.0 ** E
+    return {"kind": kind, "weight": attr, "ws": ws, "D": D}
+
+
+def oracle_extreme(case):
+    import math
+    from cobald.composite.uniform import UniformComposite
+    from cobald.composite.weighted import WeightedComposite
+    pools = []
+    for w in case["ws"]:
+        p = RecPool(1.0, 0.0, 1.0, 1.0)
+        setattr(p, "_" + case["weight"], w)
+        pools.append(p)
+    comp = UniformComposite(*pools) if case["kind"] == "uniform" else WeightedComposite(*pools, weight=case["weight"])
+    D = case["D"]
+    try:
+        comp.demand = D
+    except Exception as e:
+        return [("extreme-error:%s" % type(e).__name__, "writing demand %r raised %s" % (D, type(e).__name__))]
+    sh = [p.demand for p in pools]
+    if any(not isinstance(x, (int, float)) or not math.isfinite(x) for x in sh):
+        return [("extreme-share-not-finite", "demand %r over weights %r: shares %r" % (D, case["ws"], sh))]
+    W = sum(F(w) for w in case["ws"])
+    out = []
+    for x, w in zip(sh, case["ws"]):
+        exp = F(D) / len(sh) if (case["kind"] == "uniform" or W == 0) else F(D) * F(w) / W
+        if not (0 <= x <= D * (1 + 1e-9)) or abs(F(x) - exp) > exp * F(1, 10 ** 9):
+            out.append(("extreme-share", "demand %r over weights %r: share %r, expected %r" % (D, case["ws"], x, float(exp))))
+            break
+    if not out and abs(sum(F(x) for x in sh) - F(D)) > F(D) * F(1, 10 ** 9):
+        out.append(("extreme-sum", "demand %r over weights %r: shares sum to %r" % (D, case["ws"], float(sum(F(x) for x in sh)))))
+    if comp.demand != D:
+        out.append(("extreme-readback", "reads back %r after %r" % (comp.demand, D)))
+    return out
+
+
 def nontrivial(case, o):
     n = len(case["children"])
     for op in case["ops"]:
@@ -241,6 +292,13 @@ def run(ctx):
             ctx.violation("float:" + key, what, case)
         nf += 1
         ctx.count("float-oracle", case, nontrivial(case, None))
+    # tiny and huge magnitudes (floats only; the model is exact): oracle on the implementation
+    r3 = ctx.rng("extreme")
+    for _ in range(ctx.n(600, 6000)):
+        case = gen_extreme(r3)
+        for key, what in oracle_extreme(case):
+            ctx.violation("float:" + key, what, case)
+        ctx.count("float-extremes", case, True)
     for c in cases:
         ctx.tally("kind:%s" % (c["kind"] if c["kind"] == "uniform" else "weighted-" + c["weight"]))
         ctx.tally("n=%d" % min(len(c["children"]), 9))
